@@ -95,6 +95,7 @@ var c03ZooAdversarial = []string{
 	`{ flag }`, `{ flag(on: 1) }`, `{ flag(on: null) }`, `{ pick }`, `{ pick(i: -1) { id } }`, `{ pick(i: 2147483648) { id } }`, `{ pick(i: $x) { id } }`,
 	`{ label }`, `{ label(upper: true) }`, `{ label(prefix: null) }`, `{ items { label } }`, `{ items { label(upper: "x") } }`,
 	`{ box(in: {d: [1 null]}) }`, `{ box(in: {d: [1, "x"]}) }`, `{ box(in: {d: 3}) }`, `{ box(in: null) }`, `{ box }`, `{ box(in: {inner: {inner: {d: [null]}}}) }`, `{ box(in: {d: [[1]]}) }`,
+	`{ box(in: {fixed: [3, 4, 5]}) }`, `{ box(in: {fixed: [1.5]}) }`, `{ box(in: {fixed: []}) }`, `query($b: Box){ box(in: {inner: $b}) }`, `{ box(in: {inner: {fixed: [1, 2, 3, 4, 5, 6, 7, 8, 9]}}) }`,
 	`{ box(in: {depth: 3}) }`, `{ box(in: {d: [1], lid: {depth: 2}}) }`, `query($b: Box){ box(in: $b) zzLate(in: $b) }`, `{ items { zzExtra } zzLate(in: {depth: 1}) }`,
 	`{ box(in: {name: 3}) }`, `{ box(in: {nope: 1}) }`, `{ box(in: []) }`, `{ box(in: "s") }`, `query($b: Box){ box(in: $b) }`, `query($b: [Int]){ box(in: {d: $b}) }`, `{ box(in: {d: [99999999999]}) }`,
 	`query($a:){ name }`, `query($a: Nope){ name }`, `query($a: Int = ){ name }`, `query($: Int){ name }`, `query($a: [Int){ name }`, `query($a: Int!!){ name }`,
@@ -291,10 +292,17 @@ func c03Gen(seed int64, tier string, batch, i int) c03Input {
 		rq := zoo.Requests[r.Intn(len(zoo.Requests))]
 		in.Text = rq.Text
 		in.Vars = map[string]interface{}{}
-		for _, k := range []string{"n", "s"} {
+		for _, k := range []string{"n", "s", "b"} {
 			if r.Intn(2) == 0 {
 				in.Vars[k] = c03RandJSON(r, 2)
 			}
+		}
+		if r.Intn(8) == 0 {
+			var l []interface{}
+			for j := r.Intn(6); j > 0; j-- {
+				l = append(l, float64(j))
+			}
+			in.Vars["b"] = map[string]interface{}{"fixed": l, "inner": map[string]interface{}{"fixed": l}}
 		}
 		if r.Intn(4) == 0 {
 			in.Text = mut(in.Text)
